@@ -575,6 +575,22 @@ func (u *Unit) evalCall(e *SExpr, env *Env) Val {
 		return Val{T: u.termOf(x)}
 	case "ret", "ret0", "ret1", "ret2":
 		return u.evalRet(e, env)
+	case "fresh":
+		// fresh(p): p was allocated after the state old() refers to
+		x := u.eval(e.Args[0], env)
+		if env.old == nil {
+			u.specFail("fresh() not available here")
+		}
+		t := u.termOf(x)
+		return Val{T: and(not(eq(t, intLit(0))), app("Bool", ">=", t, env.old.alloc))}
+	case "unbox":
+		x := u.eval(e.Args[0], env)
+		if x.Boxed == nil {
+			u.specFail("unbox: the interface value was not made from a concrete value in this function")
+		}
+		return *x.Boxed
+	case "fieldsEqual", "fieldsEqualExcept":
+		return u.evalFieldsEqual(e, env)
 	case "has":
 		// has(m, k): k is a key of map m
 		m, k := u.eval(e.Args[0], env), u.eval(e.Args[1], env)
